@@ -267,7 +267,66 @@ def _leaf_values(ty: int, val: int, wrap: int, src: int, ex: int, hist: int = 0)
     return result(ok, True)
 
 
+INT_WRAPS = ("T", "T!", "[T]", "[T!]", "[T!]!", "[[T!]]")
+
+
+def _int_result(v: int, wrap: int, ex: int, src: int) -> bool:
+    """
+    pre: -(2**33) <= v <= 2**33
+    pre: 0 <= wrap < len(INT_WRAPS) and 0 <= ex <= 1 and 0 <= src <= 1
+    pre: shard_of(wrap)
+    post: _
+    """
+    # DATA-symbolic: the value a resolver hands back for an Int position is a z3 integer; both real executors run under tracing, so the
+    # solver decides every comparison the library makes on it (spec 3.5.1 result coercion: a signed 32-bit integer or a field error)
+    WR, EX, SRC = pick(wrap, INT_WRAPS), concrete_int(ex, 0, 1), concrete_int(src, 0, 1)
+    with untraced():
+        inner = NonNullType(Int) if "T!" in WR else Int
+        if WR in ("T", "T!"):
+            ftype = inner
+        elif WR == "[[T!]]":
+            ftype = ListType(ListType(inner))
+        else:
+            ftype = ListType(inner)
+        if WR.endswith("]!"):
+            ftype = NonNullType(ftype)
+    resolved = v if WR in ("T", "T!") else ([[7], [8, v]] if WR == "[[T!]]" else [7, v, 9])
+    with untraced():
+        def fres(root, ctx, info):
+            return resolved
+        obj = ObjectType("O", [Field("a", Int), Field("f", ftype, resolver=(fres if SRC == 0 else None)), Field("b", Int)])
+        schema = Schema(ObjectType("Query", [Field("s", Int), Field("o", obj), Field("t", Int)]))
+    o = {"a": 0, "b": 2} if SRC == 0 else {"a": 0, "f": resolved, "b": 2}
+    inrange = -2147483648 <= v <= 2147483647
+    try:
+        res = process_graphql_query(schema, "{ s o { a f b } t }", root={"s": 0, "o": o, "t": 0}, executor_cls=(BlockingExecutor, Executor)[EX])
+    except RuntimeError:
+        # the library's documented answer to a value that cannot be serialised (pinned by tests/test_execution/test_basic.py): the request
+        # fails loudly as a developer error.  The property does not fix this case beyond 'the value is never delivered'; inside the range
+        # it is a violation.
+        return result(not inrange, not inrange)
+    data = res.response().get("data", "<no data>")
+    errs = [tuple(e.path) if getattr(e, "path", None) is not None else None for e in (res.errors or [])]
+    if inrange:
+        exp_f, exp_errs, o_null = resolved, [], False
+    else:
+        o_null = WR in ("T!", "[T!]!")
+        exp_f = {"T": None, "T!": None, "[T]": [7, None, 9], "[T!]": None, "[T!]!": None, "[[T!]]": [[7], None]}[WR]
+        exp_errs = [("o", "f") + {"T": (), "T!": (), "[T]": (1,), "[T!]": (1,), "[T!]!": (1,), "[[T!]]": (1, 1)}[WR]]
+    exp_data = {"s": 0, "o": (None if o_null else {"a": 0, "f": exp_f, "b": 2}), "t": 0}
+    ok = (data == exp_data) and errs == exp_errs
+    return result(ok, not inrange)
+
+
 CONDITIONS = [
+    Cond(
+        name="int_result", fn=_int_result, quick=120, thorough=600, per_path=120, shards_quick=6, shards_thorough=6,
+        bound="the value resolved for an Int position is a SYMBOLIC integer, |v| <= 2**33 (z3 Int; the bound only limits the digit-count forks of the error message): 6 wrappers (T, T!, [T], [T!], [T!]!, [[T!]]) x resolver / mapping key x 2 executors, executed under tracing: "
+              "inside the signed 32-bit range the value is delivered unchanged with no error, outside it it is never delivered: the request fails with the library's RuntimeError (documented developer error) or the position is a field error "
+              "with the path of the item and null propagated to the nearest nullable ancestor, siblings undisturbed",
+        symbolic={"v": "data: the resolved value", "wrap,ex,src": "choice"}, assumptions=["oracle: spec 3.5.1 result coercion + 6.4.4 error propagation"],
+        witness={"v": 2147483648, "wrap": 3, "ex": 0, "src": 0},
+    ),
     Cond(
         name="leaf_values", fn=_leaf_values, quick=60, thorough=120, per_path=60, shards_quick=16, shards_thorough=16,
         bound="CompleteValue on leaves as a full product (x an earlier request that completed an EQUAL value of another Python type - 1 / 1.0 / True - on the same leaf type): 8 leaf value sets (Int, Float, String, Boolean, ID, enum with falsy internal values, custom scalar) x every listed value incl. the falsy ones (0, 0.0, '', False, (), enum "
